@@ -39,6 +39,10 @@ func (fe *FnEnc) queryPart(o *Obl, part int, withModel bool) string {
 		sb.WriteString(l)
 		sb.WriteString("\n")
 	}
+	for _, l := range fe.flagSettings(o) {
+		sb.WriteString(l)
+		sb.WriteString("\n")
+	}
 	if o.Cover {
 		sb.WriteString("(assert " + o.PC.S + ")\n")
 	} else {
